@@ -21,7 +21,7 @@ def args_of(c, trackfile):
     if c["track"] is not None:
         a += ["--tracking", trackfile, "--FPTrack", c["track"]]
     if c.get("start"):   # start from a results file written beforehand (an evolved distribution whose charge is not exactly one)
-        a += ["-i", STARTFILE[c.get("n", 16)]]
+        a += ["-i", c.get("startpath") or STARTFILE[c.get("n", 16)]]
     for x in XTRA[c.get("x", 0)]:
         if x == "--padding":      # replaces the base value
             i = a.index("--padding"); del a[i:i + 2]
@@ -96,6 +96,9 @@ def run(res, tier):
                 cfgs.append(dict(outstep=2, save=1, track=t, verbose=0, name="a", renorm=r, rf=rf, imp=imp, n=n, mod=mod, start=st))
             cfgs.append(dict(outstep=2, save=1, track=None, verbose=1, name="a", renorm=r, rf=rf, imp=imp, n=n, mod=mod, start=st))
             cfgs.append(dict(outstep=3, save=2, track=1, verbose=1, name="b_other_name", renorm=r, rf=rf, imp=imp, n=n, mod=mod, start=st))
+    # what the output file is called: also the name of the file the run starts from
+    for base_c in [c for c in list(cfgs) if c.get("start") and c["name"] == "a" and c["track"] is None and c["verbose"] == 0 and c["outstep"] in (0, 2, 5) and c["save"] in (0, 1)]:
+        cfgs.append(dict(base_c, name="inplace"))
     for x in range(1, len(XTRA)):
         for imp, renorm in (("csr", 0), ("collimator", 3)):
             for o, s in itertools.product(outsteps, saves):
@@ -108,6 +111,10 @@ def run(res, tier):
     def do(ic):
         i, c, rep = ic
         out = "%s_%d_r%d.h5" % (c["name"], i, rep)
+        if c["name"] == "inplace":      # the run is continued in place: the output file IS the file it starts from (a copy of the start file under the output's name)
+            import shutil
+            shutil.copy(STARTFILE[c.get("n", 16)], os.path.join(wd, out))
+            c = dict(c, startpath=os.path.join(wd, out))
         r = pl.run(exe, args_of(c, trackfile), wd, out=out)
         doc = pl.h5(r["h5"], maxv=4000) if r["rc"] == 0 else None
         try:
